@@ -144,6 +144,9 @@ type Run struct {
 	NegFailing []string
 	NegTotal   int
 	NegRan     bool
+	// C19: schema constants that changed after a machine was created from them
+	SchemaMutated []string
+	SchemaUseRan  bool
 	// C06 bounded waiting stand-in
 	WFailing []string
 	WTotal   int
@@ -259,6 +262,7 @@ func verifyRun(opts *RunOpts) (*Run, error) {
 			d.Schemas = keep
 		}
 		run.ExtraNotes = append(run.ExtraNotes, notes...)
+		run.SchemaMutated, run.SchemaUseRan = d.Mutated, true
 		gr, bg := w.groundResults(opts, d)
 		run.Results = append(run.Results, gr...)
 		run.SchemaCount = len(d.Schemas)
